@@ -719,4 +719,20 @@ example :
     isLocalhostOf "127.8.9.1".toList = true ∧ isLocalhostOf "::1".toList = true ∧
     isLocalhostOf "1270.0.0.1".toList = false := by decide
 
+/-! ## the hop limit as configured -/
+
+theorem compileMaxHops_ge_one (configured : Int) : 1 ≤ compileMaxHops configured := by
+  unfold compileMaxHops
+  split
+  · exact Nat.le_refl 1
+  · omega
+
+/-- **the whole oracle, for every configured hop limit** (zero, negative, huge): the hypothesis `1 ≤ maxHops` of
+    `clientIP_meets_spec` is what `compileProxies` establishes -/
+theorem clientIP_meets_spec_compiled (r : Req) (configured : Int) :
+    specOK { r with maxHops := compileMaxHops configured } (clientIP { r with maxHops := compileMaxHops configured }) = true :=
+  clientIP_meets_spec _ (compileMaxHops_ge_one configured)
+
+example : compileMaxHops 0 = 1 ∧ compileMaxHops (-100) = 1 ∧ compileMaxHops 3 = 3 := by decide
+
 end Rivaas.C18
